@@ -1,5 +1,6 @@
 SPECIFICATION Spec
 CONSTANT Which = "main"
 CONSTANT Tier = "thorough"
+CONSTANT LineAlgo = "current"
 INVARIANT FindOKHolds
 CHECK_DEADLOCK FALSE
